@@ -156,6 +156,31 @@ let rec locate h s ops j =
     let n = nat_len (op_steps h shuffle inplace ufirst !autosv s o) in
     if j <= n then Some (s, o) else locate h (run_op h shuffle inplace ufirst !autosv s o) r (j - n)
 
+(* consistency of the two models: a call that runs ALONE in the concurrent model
+   (Model/OciCrashConc.v: one thread, scheduled to completion) must leave the same shared
+   directory and resolver as the sequential model's operation *)
+let conc_agrees h blobs (s : st) (a : api) : bool =
+  let m = mt_of blobs and dc = dec_of blobs in
+  let call =
+    match a with
+    | APush (d, c) when dc d || not (m d) -> Some (CPush (d, c, m d), Push (d, c, m d))
+    | ATag (d, r) when dc d || not (m d) -> Some (CTag (d, r), Tag (d, r))
+    | AUntag r -> Some (CUntag r, Untag r)
+    | ASaveIndex -> Some (CSaveIndex, SaveIndex)
+    | _ -> None in
+  match call with
+  | None -> true
+  | Some (cc, o) ->
+    if not !autosv then true else begin
+      let c0 = start h s [cc] in
+      let n = (match c0.cthreads with t :: _ -> nat_len t.tprog | [] -> 0) + 2 in
+      let c = sched shuffle c0 (List.init n (fun _ -> nat_of_int 0)) in
+      let s1 = run_op h shuffle inplace ufirst !autosv s o in
+      let same p = (c.cfs.files p = s1.sfs.files p) in
+      c.ctags = s1.stags && c.cdigs = s1.sdigs && same FLayout && same FIndex &&
+      List.for_all (fun b -> same (FBlob (n_of_int b.bid))) blobs
+    end
+
 (* initialisation: final=init; the history (if any) consists of earlier attempts crash:<j>:init *)
 let is_init sc =
   let n = String.length sc in n >= 10 && String.sub sc (n - 10) 10 = "final=init"
@@ -191,9 +216,11 @@ let () =
       let (blobs, hist, fin) = parse_script sc in
       let h = hfun blobs in
       let s = run_hist h blobs hist in
+      let agree = conc_agrees h blobs s fin in
       let fin = expand h (mt_of blobs) (dec_of blobs) s fin in
-      Printf.printf "%s\n" (String.trim (Printf.sprintf "%s STEPS %s" id
-        (String.concat " " (List.map show_step (steps_seq h shuffle inplace ufirst !autosv s fin)))))
+      Printf.printf "%s\n" (String.trim (Printf.sprintf "%s STEPS %s%s" id
+        (String.concat " " (List.map show_step (steps_seq h shuffle inplace ufirst !autosv s fin)))
+        (if agree then "" else " CONC-MODEL-DIFFERS")))
     | id :: "K" :: j :: sc :: _ ->
       let (blobs, hist, fin) = parse_script sc in
       let h = hfun blobs in
